@@ -85,6 +85,12 @@ def gen_pool(rng, index, n_ids, max_versions, kinds, digits_mixed=False, version
             nv = 0
         elif kind == 'custom':
             e['type'] = 'x-sim-widget'
+        elif kind == 'cobs':
+            # a registered custom 2.1 observable that declares `modified` (and nothing else of the versioning properties): several
+            # versions of one id, told apart by `modified` alone
+            e['ver'] = ver = '2.1'
+            e['type'] = 'x-sim-reading'
+            nv = max(nv, 2) if rng.random() < 0.7 else nv
         elif kind == 'unreg':
             e['type'] = 'x-unreg-thing'
             e['digits'] = 'mixed' if digits_mixed else rng.choice([3, 6] if ver == '2.1' else [3])
@@ -170,6 +176,9 @@ def content(pool, k, j):
             d['labels'] = ['W%d' % i + 'W' * 9000 for i in range(1 + e['big'] // 9000)]
         _stamp(d, e, j, 3 if ver == '2.0' else None)
         return d
+    if kind == 'cobs':
+        return {'type': 'x-sim-reading', 'spec_version': '2.1', 'id': eid(e), 'name': 'reading v%d' % j, 'value': j,
+                'modified': tsparse.fmt(e['versions'][j], min_digits=3)}
     if kind == 'unreg':
         d = {'type': 'x-unreg-thing', 'id': eid(e), 'name': 'thing v%d' % j,
              'x_list': [1, 2, {'a': 'b'}] + ['U%d' % i + 'U' * 9000 for i in range((e.get('big', 0) + 8999) // 9000)]}
@@ -260,7 +269,7 @@ class StoreWorld(object):
                      allow_custom=True)
             world.probe('type_parsed_before_registration')
         self.register_customs()
-        self.registered_names = ({'x-sim-widget', 'marking-definition'} | set(C.SDO20) | set(C.SRO20) | set(C.SDO21) | set(C.SRO21) | set(C.SCO21))
+        self.registered_names = ({'x-sim-widget', 'x-sim-reading', 'marking-definition'} | set(C.SDO20) | set(C.SRO20) | set(C.SDO21) | set(C.SRO21) | set(C.SCO21))
         self.M = self.F = None
         self.make_memory()
         self.make_fs()
@@ -279,6 +288,13 @@ class StoreWorld(object):
         class Widget20(object):
             pass
         self.Widget21, self.Widget20 = Widget21, Widget20
+        from stix2.properties import TimestampProperty
+
+        @s.v21.CustomObservable('x-sim-reading', [('name', StringProperty(required=True)), ('value', IntegerProperty()),
+                                                  ('modified', TimestampProperty(precision='millisecond', precision_constraint='min'))])
+        class Reading21(object):
+            pass
+        self.Reading21 = Reading21
         # two registered toplevel-property extensions (an object may name both)
         self.TL_A = 'extension-definition--' + C.mkuuid(1, 'sim-toplevel')
         self.TL_B = 'extension-definition--' + C.mkuuid(2, 'sim-toplevel')
